@@ -1,13 +1,6 @@
 #!/bin/bash
-# usage: tools/coqbuild.sh [make targets...]   (run from anywhere)
-# Regenerates _CoqProject from the files on disk and runs a full .vo build of the targets
-# (default: everything). Never uses -vos/-vok.
-set -e
-cd "$(dirname "$0")/../coq"
-mkdir -p ../.build
-exec 9>../.build/coqbuild.lock
-flock 9
-{ echo "-Q theories LanceV"; echo "-arg -w -arg -notation-overridden,-deprecated-hint-without-locality,-deprecated-instance-without-locality"; find theories -name '*.v' | LC_ALL=C sort; } > _CoqProject.new
-if ! cmp -s _CoqProject.new _CoqProject 2>/dev/null; then mv _CoqProject.new _CoqProject; coq_makefile -f _CoqProject -o Makefile.gen >/dev/null; else rm _CoqProject.new; fi
-[ -f Makefile.gen ] || coq_makefile -f _CoqProject -o Makefile.gen >/dev/null
-exec timeout ${COQ_TIMEOUT:-3000} make -f Makefile.gen -j${COQ_JOBS:-16} "$@"
+# usage: tools/coqbuild.sh [-k] [targets...]   (run from anywhere), e.g. tools/coqbuild.sh theories/Props/C37.vo
+# Full .vo build of the targets (default: everything) and their dependencies; never -vos/-vok.
+# No global lock: per-file locks inside tools/coqbuild.py, so a long proof of one property does not
+# block the builds of the others.
+exec python3 "$(dirname "$0")/coqbuild.py" "$@"
